@@ -71,6 +71,10 @@ def _intervals(draw, q, k0, n, events):
     if len(pts) % 2:
         pts = pts[:-1]
     ivs = [[pts[i], pts[i + 1]] for i in range(0, len(pts), 2)]
+    if len(pts) >= 3 and draw(st.booleans()):
+        # adjoining intervals that meet in one point (often an event time): the point
+        # belongs to neither of the two open intervals
+        ivs = [[pts[i], pts[i + 1]] for i in range(len(pts) - 1)]
     if draw(st.sampled_from([False, False, True])):
         # an overlapping interval: every interval counts on its own
         a = draw(st.integers(0, 2 * n - 1))
